@@ -11,23 +11,23 @@ package plugin
 //@ func validPluginName(name) (ok)
 //@   loop 1 invariant 0 <= $pos && $pos <= len(name) && (forall j in 0..$pos :: namechar(at(name, j)) == 1)
 //@   loop 1 decreases len(name) - $pos
-//@   ensures#iff ok <==> validname(name)                                                                   [C09 C17]
+//@   ensures#iff ok <==> validname(name)                                                                   [C09 C14 C17 C18]
 //@   modifies nothing
 
 //@ func EncodeIdentity(name, data) (s)
 //@   ensures#valid s != "" ==> validname(name)                                                             [C09 C17]
-//@   call bech32.Encode#1 requires same(arg1, data)                                                        [C09]
+//@   call bech32.Encode#1 requires same(arg1, data)                                                        [C09 C17]
 //@   modifies nothing
 
 //@ func EncodeRecipient(name, data) (s)
 //@   ensures#valid s != "" ==> validname(name)                                                             [C09 C17]
-//@   call bech32.Encode#1 requires same(arg1, data)                                                        [C09]
+//@   call bech32.Encode#1 requires same(arg1, data)                                                        [C09 C17]
 //@   modifies nothing
 
 //@ func ParseIdentity(s) (name, data, err)
 //@   ensures#valid err == nil ==> validname(name)                                                          [C09 C17]
 //@   ensures#nil err != nil ==> name == "" && data == nil                                                  [C09 C14 C17]
-//@   ensures#ascii err == nil ==> (forall j in 0..len(s) :: 33 <= at(s, j) && at(s, j) <= 126)              [C09]
+//@   ensures#ascii err == nil ==> (forall j in 0..len(s) :: 33 <= at(s, j) && at(s, j) <= 126)              [C09 C17 C18]
 //@   ensures#name err == nil ==> hasprefix(s, "AGE-PLUGIN-") && len(s) >= len(name) + 13 && (forall j in 0..len(name) :: at(name, j) == lowerc(at(s, 11 + j))) && at(s, 11 + len(name)) == 45 && at(s, 12 + len(name)) == 49   [C09 C17 C18]
 //@   modifies nothing
 
@@ -38,21 +38,21 @@ package plugin
 //@   modifies nothing
 
 //@ func NewRecipient(s, ui) (r, err)
-//@   ensures#valid err == nil ==> r != nil && validname(r.name) && r.encoding == s && r.ui == ui && !r.identity     [C17]
+//@   ensures#valid err == nil ==> r != nil && validname(r.name) && r.encoding == s && r.ui == ui && !r.identity     [C09 C16 C17]
 //@   ensures#nil err != nil ==> r == nil                                                                          [C14 C17]
 //@   ensures#noexec $execs == old($execs)                                                                         [C17]
 //@   fresh r when err == nil
 //@   modifies nothing
 
 //@ func NewIdentity(s, ui) (i, err)
-//@   ensures#valid err == nil ==> i != nil && validname(i.name) && i.encoding == s && i.ui == ui                   [C17]
+//@   ensures#valid err == nil ==> i != nil && validname(i.name) && i.encoding == s && i.ui == ui                   [C09 C16 C17]
 //@   ensures#nil err != nil ==> i == nil                                                                          [C14 C17]
 //@   ensures#noexec $execs == old($execs)                                                                         [C17]
 //@   fresh i when err == nil
 //@   modifies nothing
 
 //@ func NewIdentityWithoutData(name, ui) (i, err)
-//@   ensures#valid err == nil ==> i != nil && validname(i.name) && i.name == name && i.ui == ui                    [C17]
+//@   ensures#valid err == nil ==> i != nil && validname(i.name) && i.name == name && i.ui == ui                    [C09 C16 C17]
 //@   ensures#nil err != nil ==> i == nil                                                                          [C14 C17]
 //@   ensures#noexec $execs == old($execs)                                                                         [C17]
 //@   fresh i when err == nil
@@ -128,25 +128,25 @@ package plugin
 //@   call writeStanza#3 requires id(arg0) == id(conn) && arg1 == "extension-labels" && len(arg2) == 0                              [C16]
 //@   call writeStanza#4 requires id(arg0) == id(conn) && arg1 == "done" && len(arg2) == 0                                          [C16]
 //@   call writeStanza#5 requires id(arg0) == id(conn) && arg1 == "ok" && len(arg2) == 0 && s.Type == "recipient-stanza" && rsvalid(s)   [C16]
-//@   call writeStanza#6 requires id(arg0) == id(conn) && arg1 == "ok" && len(arg2) == 0 && s.Type == "labels" && same(labels, s.Args)    [C16]
+//@   call writeStanza#6 requires id(arg0) == id(conn) && arg1 == "ok" && len(arg2) == 0 && s.Type == "labels" && same(labels, s.Args)    [C11 C16]
 //@   call writeStanza#7 requires id(arg0) == id(conn) && arg1 == "ok" && len(arg2) == 0 && s.Type == "error"                       [C16]
 //@   call writeStanza#8 requires id(arg0) == id(conn) && arg1 == "unsupported" && len(arg2) == 0 && s.Type != "recipient-stanza" && s.Type != "labels" && s.Type != "error" && s.Type != "done" && s.Type != "msg" && s.Type != "confirm" && s.Type != "request-secret" && s.Type != "request-public"   [C16]
 //@   call handle#1 requires arg2 == conn && arg3 == s                                                                             [C16]
 //@   call fmt.Errorf#6 requires arg0 == "%s" && len(arg1) == 1 && s.Type == "error"                                                 [C16 C11]
 //@   loop 1 invariant conn != nil && conn.Writer != nil && sr != nil && sr.r != nil && r.ui != nil && r.ui == old(r.ui)
 //@   loop 1 invariant#accepted len(stanzas) == calls("writeStanza", 5) - old(calls("writeStanza", 5))                              [C16]
-//@   loop 1 invariant#labelsonce (isnil(labels) ==> calls("writeStanza", 6) == old(calls("writeStanza", 6))) && (!isnil(labels) ==> calls("writeStanza", 6) == old(calls("writeStanza", 6)) + 1)   [C16]
+//@   loop 1 invariant#labelsonce (isnil(labels) ==> calls("writeStanza", 6) == old(calls("writeStanza", 6))) && (!isnil(labels) ==> calls("writeStanza", 6) == old(calls("writeStanza", 6)) + 1)   [C11 C16]
 //@   loop 1 invariant#noerrack calls("writeStanza", 7) == old(calls("writeStanza", 7))                                            [C11 C16]
 //@   loop 1 invariant#answered calls("readStanza", 1) - old(calls("readStanza", 1)) == (calls("writeStanza", 5) - old(calls("writeStanza", 5))) + (calls("writeStanza", 6) - old(calls("writeStanza", 6))) + (calls("writeStanza", 8) - old(calls("writeStanza", 8))) + ($handled - old($handled))   [C16]
 //@   loop 1 invariant#phase1 calls("writeStanza", 1) == old(calls("writeStanza", 1)) + 1 && calls("writeStanza", 2) == old(calls("writeStanza", 2)) + 1 && calls("writeStanzaWithBody", 1) == old(calls("writeStanzaWithBody", 1)) + 1 && calls("writeStanza", 3) == old(calls("writeStanza", 3)) + 1 && calls("writeStanza", 4) == old(calls("writeStanza", 4)) + 1   [C16]
 //@   loop 1 decreases len(sr.r.$rem)
 //@   ensures#readerr lasterr("readStanza", 1) != nil ==> err != nil                                                              [C13 C16 C11]
 //@   ensures#done err == nil ==> lasterr("readStanza", 1) == nil                                                                  [C16 C11]
-//@   ensures#nonempty err == nil ==> len(stanzas) > 0 && len(stanzas) == calls("writeStanza", 5) - old(calls("writeStanza", 5))    [C16]
+//@   ensures#nonempty err == nil ==> len(stanzas) > 0 && len(stanzas) == calls("writeStanza", 5) - old(calls("writeStanza", 5))    [C01 C11 C16]
 //@   ensures#phase1 err == nil ==> calls("writeStanza", 1) == old(calls("writeStanza", 1)) + 1 && calls("writeStanza", 2) == old(calls("writeStanza", 2)) + 1 && calls("writeStanzaWithBody", 1) == old(calls("writeStanzaWithBody", 1)) + 1 && calls("writeStanza", 3) == old(calls("writeStanza", 3)) + 1 && calls("writeStanza", 4) == old(calls("writeStanza", 4)) + 1   [C16]
-//@   ensures#labelsonce err == nil ==> calls("writeStanza", 6) <= old(calls("writeStanza", 6)) + 1                                 [C16]
+//@   ensures#labelsonce err == nil ==> calls("writeStanza", 6) <= old(calls("writeStanza", 6)) + 1                                 [C11 C16]
 //@   ensures#noerrack err == nil ==> calls("writeStanza", 7) == old(calls("writeStanza", 7))                                       [C11 C16]
-//@   ensures#nil err != nil ==> stanzas == nil && labels == nil                                                                   [C14 C16]
+//@   ensures#nil err != nil ==> stanzas == nil && labels == nil                                                                   [C11 C14 C16]
 //@   ensures#oneexec $execs <= old($execs) + 1                                                                                    [C17]
 //@   ensures#recvintact sameobject(r)                                                                                             [C11 C20]
 
@@ -174,10 +174,10 @@ package plugin
 //@   loop 2 invariant#phase1 calls("writeStanza", 1) == old(calls("writeStanza", 1)) + 1 && calls("writeStanza", 2) == old(calls("writeStanza", 2)) + 1 && calls("writeStanza", 3) == old(calls("writeStanza", 3)) + 1 && calls("Marshal", 1) == old(calls("Marshal", 1)) + len(stanzas)   [C16]
 //@   loop 2 decreases len(sr.r.$rem)
 //@   ensures#phase1 err == nil ==> calls("writeStanza", 1) == old(calls("writeStanza", 1)) + 1 && calls("writeStanza", 2) == old(calls("writeStanza", 2)) + 1 && calls("writeStanza", 3) == old(calls("writeStanza", 3)) + 1 && calls("Marshal", 1) == old(calls("Marshal", 1)) + len(stanzas)   [C16]
-//@   ensures#keyonce err == nil ==> !isnil(fileKey) && calls("writeStanza", 4) == old(calls("writeStanza", 4)) + 1                 [C16]
+//@   ensures#keyonce err == nil ==> !isnil(fileKey) && calls("writeStanza", 4) == old(calls("writeStanza", 4)) + 1                 [C04 C16]
 //@   ensures#readerr lasterr("readStanza", 1) != nil ==> err != nil && wraps(err, lasterr("readStanza", 1))                       [C13 C16]
 //@   ensures#done err == nil ==> lasterr("readStanza", 1) == nil                                                                  [C16]
-//@   ensures#nil err != nil ==> fileKey == nil                                                                                    [C14 C16]
+//@   ensures#nil err != nil ==> fileKey == nil                                                                                    [C04 C14 C16]
 //@   ensures#oneexec $execs <= old($execs) + 1                                                                                    [C17]
 
 // the deferred error wrappers must keep the cause inspectable (errors.Is):
